@@ -779,6 +779,7 @@ type opResult struct {
 	Aborts       int64
 	CBs          int64
 	Retained     bool
+	Geoms        []geom.Geometry // geometry-valued results (candidates for publication to the next epoch)
 	RetainDigest string
 }
 
@@ -845,6 +846,11 @@ func execOp(op *opSpec, p *pool, scribbleNow bool) (res opResult) {
 				sb.WriteString(" ; ")
 			}
 			digest(&sb, o, 0)
+			if o.CanInterface() {
+				if g, ok := o.Interface().(geom.Geometry); ok {
+					res.Geoms = append(res.Geoms, g)
+				}
+			}
 		}
 		res.Digest = sb.String()
 	}()
